@@ -258,6 +258,8 @@ def ladder(ctx, col):
 def anchored(ctx, col):
     repo = ctx.repo
     d = repo.get_def(FN)
+    from ..rules import callbacks
+    callbacks.check(ctx, col, "R-TERM", d)
     col.text_group("R-TERM", d.qualname, d, [
         ("node sphere = (node position, node radius)", ["sphere = VolSphere(n.xyz(), n.r)"], "sphere"),
         ("one frustum per child, from this node (position, radius) to the child's sphere (centre, radius), in child order",
